@@ -4,7 +4,13 @@
 
   A stored `orb.Pointer` is modelled as `(id, point)`; ids stand for pointer identity.
   `*node` is `Tree.nil` (nil pointer) or `Tree.node value c0 c1 c2 c3`.
-  `math.MaxFloat64` limits are modelled as `none : Option α` (no limit).
+  `math.MaxFloat64` limits: the searches exist in two forms.  `matching` / `remove` / `kNearest` start
+  from `none : Option α` (no limit) — the form the theorems are about, an ordered field has no largest
+  element.  `matchingFrom` / `removeFrom` / `kNearestFrom` start from an explicit initial limit
+  `init : Option α`; the Float twin runs them with `some math.MaxFloat64`, which is what the Go code
+  does (a pointer whose squared distance is not `< MaxFloat64` — overflow to +Inf, NaN — is never
+  accepted).  `OrbProofs/C11From.lean` proves that the two forms give the same answers whenever
+  every accepted pointer is strictly nearer than the initial limit.
 -/
 import Orb.Basic
 import Orb.Core
@@ -287,6 +293,49 @@ def kNearest (sqrt : α → α) (q : QT α) (pt : Pt α) (k : Nat) (filter : Ptr
     let st0 : NearSt α := ⟨#[], q.bound, maxDist.map fun m => m * m⟩
     let st := visit (nearestVisitor sqrt pt filter k) q.root (rootCell q.bound) [] st0
     drain st.heap.size st.heap []
+
+/-! ### the same searches from an explicit initial limit (`minDistSquared: math.MaxFloat64`) -/
+
+def findRawFrom (init : Option α) (sqrt : α → α) (q : QT α) (pt : Pt α) (filter : Ptr α → Bool) : FindSt α :=
+  visit (findVisitor sqrt pt filter) q.root (rootCell q.bound) [] ⟨none, q.bound, init⟩
+
+/-- `Quadtree.Matching` with `minDistSquared` initialised to `init`. -/
+def matchingFrom (init : Option α) (sqrt : α → α) (q : QT α) (pt : Pt α) (filter : Ptr α → Bool) :
+    Option (Ptr α) :=
+  match q.root with
+  | .nil => none
+  | _ => (findRawFrom init sqrt q pt filter).closest.map (·.1)
+
+/-- `Quadtree.Remove(p, eq)` with `minDistSquared` initialised to `init`. -/
+def removeFrom (init : Option α) (sqrt : α → α) (q : QT α) (pt : Pt α) (eq : Ptr α → Bool) : QT α × Bool :=
+  match q.root with
+  | .nil => (q, false)
+  | _ =>
+    match (findRawFrom init sqrt q pt eq).closest with
+    | none => (q, false)
+    | some (_, path) => ({ q with root := modifyAt clearNode path q.root }, true)
+
+/-- `Quadtree.KNearestMatching` with `maxDistSquared` initialised to `init` and overwritten by the
+    square of `maxDistance[0]` when one is given (a negative limit therefore acts as its absolute
+    value). -/
+def kNearestFrom (init : Option α) (sqrt : α → α) (q : QT α) (pt : Pt α) (k : Nat) (filter : Ptr α → Bool)
+    (maxDist : Option α) : List (Ptr α) :=
+  match q.root with
+  | .nil => []
+  | _ =>
+    if k = 0 then [] else
+    let lim : Option α := match maxDist with
+      | some m => some (m * m)
+      | none => init
+    let st0 : NearSt α := ⟨#[], q.bound, lim⟩
+    let st := visit (nearestVisitor sqrt pt filter k) q.root (rootCell q.bound) [] st0
+    drain st.heap.size st.heap []
+
+/-- `make(maxHeap, 0, k+1)` in `KNearestMatching` panics ("makeslice: cap out of range") when `k+1`
+    wraps around (k = MaxInt64) or `(k+1) * 24` bytes (a `heapItem` is an interface and a float64)
+    exceed the runtime's `maxAlloc` = 2^48 on linux/amd64.  The call is reached only for a non-nil
+    root and `k > 0`. -/
+def heapCapPanics (k : Nat) : Bool := decide (k + 1 ≥ 2 ^ 63) || decide ((k + 1) * 24 > 2 ^ 48)
 
 /-! ### inBoundVisitor (InBound / InBoundMatching) -/
 
